@@ -20,6 +20,7 @@ JudgeNum(e) ==
   IF e.kind # M!Kind(e.k) THEN "wrong kind"
   ELSE IF e.isi64 # M!IsI64(r) \/ e.isu64 # M!IsU64(r) \/ e.isf64 # M!IsF64(r) THEN "integer / float predicates differ from the number model"
   ELSE IF e.asi64 # M!AsI64(r) \/ e.asu64 # M!AsU64(r) THEN "as_i64 / as_u64 differ from the number model"
+  ELSE IF e.visit # M!Visit(r) THEN "Number::visit dispatches to another method, or with another payload, than the number model"
   ELSE "ok"
 
 JudgeCmp(e) ==
